@@ -624,9 +624,25 @@ func Census(substr string) (n int, funcs []string) {
 		}
 		buf = make([]byte, 2*len(buf))
 	}
-	for _, g := range strings.Split(string(buf), "\n\n") {
+	// only goroutines of this run: a worker process executes many runs, and goroutines that an earlier
+	// run left behind (blocked for ever in its own bubble) are still listed by the runtime
+	blocks := strings.Split(string(buf), "\n\n")
+	bubble := ""
+	if len(blocks) > 0 {
+		hdr := strings.SplitN(blocks[0], "\n", 2)[0] // the calling goroutine comes first
+		if i := strings.Index(hdr, "synctest bubble "); i >= 0 {
+			bubble = strings.TrimRight(hdr[i:], "]:")
+		}
+	}
+	for _, g := range blocks {
 		if !strings.Contains(g, substr) {
 			continue
+		}
+		if bubble != "" {
+			hdr := strings.SplitN(g, "\n", 2)[0]
+			if !strings.Contains(hdr, bubble+"]") && !strings.Contains(hdr, bubble+",") {
+				continue
+			}
 		}
 		lines := strings.Split(g, "\n")
 		top := ""
